@@ -29,7 +29,10 @@ RULE = ("trees: spans a..b (1<=a<=b<=n) with optional < > markers on spans, sing
         "per batch in which a text longer than 58 columns is wrapped after commas onto continuation lines; a batch that cannot be parsed that way is a "
         "failure) and on three assembled structures "
         "(canonical; Join=false on joins; Join=false + wrapper node for every complement under a pass-through node) through AddFeature; the four "
-        "written texts are judged on the case's parent and on strand- and position-separating probe parents. "
+        "written texts are judged on the case's parent and on strand- and position-separating probe parents. One-tree cases (random trees, corpus, "
+        "and the long-text cases: location texts of 59..300 characters, six-operand joins with 4-6 digit positions, nested complement(join(..join(..))), "
+        "parents up to 120000 letters) also run the record leg: the four locations written by genbank.Build into one record and read back by "
+        "genbank.Parse, feature sequence and re-read text judged against the spec. "
         "A case line is a batch of up to 64 trees in the enumerated families (so `evaluations` counts batches); "
         "non-trivial = some tree has an operator and the parent is not a homopolymer; distinct by case text")
 EXHAUSTIVE = {"quick": False, "thorough": False}
@@ -227,6 +230,29 @@ def cases(seed, tier):
             yield ["locw", str(r.choice([1, 1, 8, 20, 40])), rand_parent(r, plen), t]
         else:
             yield ["loc", rand_parent(r, plen), t]
+    # long location texts (59..300 characters): six-operand joins with 4-6 digit positions and nested
+    # complement(join(..join(..))) — as one-tree cases they also go through genbank.Build -> genbank.Parse
+    # (record leg), where a writer that wraps or re-flows the location field would show
+    def far_span(plen, marks):
+        a = r.randint(max(1, plen // 2), plen)
+        b = min(plen, a + r.randint(0, 120))
+        m = ("<" if marks and r.random() < 0.15 else "")
+        return "(s %d %d%s)" % (a, b, (" " + m) if m else "")
+    for i in range(40 if quick else 600):
+        plen = r.choice([2000, 2000, 2000, 1500, 9999]) if i % 10 else r.choice([20000, 120000])
+        marks = i % 3 == 0
+        k = i % 4
+        if k == 0:
+            t = "(j %s)" % " ".join(far_span(plen, marks) for _ in range(6))
+        elif k == 1:
+            t = "(c (j %s (j %s) %s))" % (far_span(plen, marks), " ".join(far_span(plen, marks) for _ in range(3)),
+                                          " ".join(far_span(plen, marks) for _ in range(2)))
+        elif k == 2:
+            t = "(j %s (c (j %s (c (j %s)))) (b %d))" % (far_span(plen, marks), " ".join(far_span(plen, marks) for _ in range(2)),
+                                                         " ".join(far_span(plen, marks) for _ in range(3)), r.randint(plen // 2, plen))
+        else:
+            t = "(c (j %s))" % " ".join("(c %s)" % far_span(plen, marks) if r.random() < 0.5 else far_span(plen, marks) for _ in range(r.randint(4, 6)))
+        yield ["loc", randword(r, ACGT, plen), t]
     # deep / wide extremes (their texts are several hundred characters long: wrapped at 58 columns)
     for i in range(10 if quick else 100):
         plen = r.randint(50, 2000)
